@@ -44,7 +44,9 @@ RULE = ("random rule systems of the engine generator (harness/rules.py: int/floa
         "(self/mutual dependence), 'mutating' (delete_arrays, late set_input, raise switches toggled between requests), "
         "'threshold' (disk-capable configurations whose memory-occupation threshold is moved between requests, "
         "set_input repeated on the same variable and stored period before/after the move, eternal variables given "
-        "dated periods); "
+        "dated periods), 'delete' (delete_arrays with periods inside / over / across the stored ones, memory vs disk), "
+        "'chain' (a last_month spiral pair under a top variable that raises after the spiral was walked, then "
+        "further requests at the same period, across store settings); "
         "a case is non-trivial when a formula ran and at least one non-plain configuration skipped a store, used the "
         "disk or recorded a trace node with children; distinct by JSON text")
 TRUSTED = ["harness/rules.py: compiler from rule-system terms to real Variable subclasses (formulas call the public API)",
@@ -98,7 +100,7 @@ def cfg_family(rng, n):
 
 
 def gen_one(rng, k):
-    stream = {6: "spiral", 3: "mutating", 1: "threshold"}.get(k % 7, "claimed")
+    stream = {6: "spiral", 3: "mutating", 1: "threshold", 5: "delete", 8: "chain"}.get(k % 9, "claimed")
     case = rules.gen_case(rng, SPIRAL_PROFILE if stream == "spiral" else PROFILE)
     case.pop("cfg", None)
     sys, reqs = case["sys"], case["requests"]
@@ -136,6 +138,10 @@ def gen_one(rng, k):
     case["requests"] = reqs
     if stream == "threshold":
         return threshold_case(rng, case)
+    if stream == "delete":
+        return delete_case(rng, case)
+    if stream == "chain":
+        return chain_case(rng, case)
     fam = cfg_family(rng, n)
     # trace always; four others in rotation so that every member is used equally often
     picks = [0] + sorted({1 + (k + j * 2) % (len(fam) - 1) for j in range(4)})
@@ -197,6 +203,123 @@ def threshold_case(rng, case):
     return case
 
 
+def _input_var(unit, ty="int", ent="person", default=0):
+    return {"ent": ent, "type": ty, "unit": unit, "end": None, "formulas": [], "default": default, "neutral": False}
+
+
+def delete_case(rng, case):
+    """delete_arrays with periods smaller than, larger than, or partly overlapping the stored ones
+    (a month inside a stored year, a year over stored months, a week across a month or year boundary,
+    several days), on values held in memory or on disk, followed by get_array / calculate."""
+    sys, pop = case["sys"], case["pop"]
+    vs = sys["vars"]
+    n0 = len(vs)
+    y, m, w, d, r = n0, n0 + 1, n0 + 2, n0 + 3, n0 + 4
+    vs += [_input_var("year", default=rng.choice([0, 7])), _input_var("month", rng.choice(["int", "float"])),
+           _input_var("week"), _input_var("day", default=1)]
+    vs.append({"ent": "person", "type": "int", "unit": "month", "end": None, "default": 0, "neutral": False,
+               "formulas": [[[1, 1, 1], ["bin", "add", ["dep", m, "same", "plain"], ["dep", y, "this_year", "plain"]]]]})
+    Y = rng.choice([2017, 2018, 2019])
+    import datetime as _dt
+    last_monday_jan = max(_dt.date(Y, 1, dd) for dd in range(25, 32) if _dt.date(Y, 1, dd).weekday() == 0)
+    first_monday = min(_dt.date(Y, 1, dd) for dd in range(1, 8) if _dt.date(Y, 1, dd).weekday() == 0)
+    week_before = first_monday - _dt.timedelta(days=7)          # usually starts in the previous year
+    wk = lambda dt: ["week", [dt.year, dt.month, dt.day], 1]  # noqa: E731
+    stored = {
+        y: [["year", [Y, 1, 1], 1], ["year", [Y + 1, 1, 1], 1], ["year", [Y - 1, 1, 1], 1]],
+        m: [["month", [Y, 1, 1], 1], ["month", [Y, 2, 1], 1], ["month", [Y, 12, 1], 1], ["month", [Y - 1, 12, 1], 1]],
+        w: [wk(last_monday_jan), wk(first_monday), wk(week_before), wk(last_monday_jan + _dt.timedelta(days=7))],
+        d: [["day", [Y, 1, 31], 1], ["day", [Y, 2, 1], 1], ["day", [Y, 1, 1], 1]],
+    }
+    pool = [["month", [Y, 1, 1], 1], ["month", [Y, 1, 1], 2], ["month", [Y, 2, 1], 1], ["year", [Y, 1, 1], 1],
+            ["year", [Y - 1, 1, 1], 2], ["month", [Y - 1, 12, 1], 1], wk(last_monday_jan), wk(week_before),
+            ["day", [Y, 1, 1], 1], ["day", [Y, 1, 30], 7], ["day", [Y, 1, 31], 1], ["week", wk(first_monday)[1], 5],
+            ["month", [Y, 1, 1], 12], None]
+    sets = [q for q in case["requests"] if q[0] == "set"]
+    rest = [q for q in case["requests"] if q[0] not in ("set", "delete")]
+    reqs = list(sets)
+    for v, ps in stored.items():
+        for p in ps:
+            if rng.random() < 0.85:
+                reqs.append(["set", v, p, rules.input_values(rng, vs[v], rules.count_for(pop, vs[v]))])
+    if rng.random() < 0.5:
+        reqs.append(["calc", r, ["month", [Y, 1, 1], 1]])
+    targets = [y, m, w, d] + [i for i in range(n0) if not vs[i]["formulas"]][:2]
+    for _ in range(rng.randint(2, 4)):
+        reqs.append(["delete", rng.choice(targets[:4] * 3 + targets[4:]), rng.choice(pool)])
+    after = []
+    for v, ps in stored.items():
+        for p in ps:
+            after.append([rng.choice(["get", "calc"]), v, p])
+    after.append(["calc", r, ["month", [Y, rng.choice([1, 2, 12]), 1], 1]])
+    after.append(["add", m, ["year", [Y, 1, 1], 1]])
+    rng.shuffle(after)
+    reqs += after[:rng.randint(6, len(after))]
+    if rng.random() < 0.4:
+        reqs.append(["delete", rng.choice(targets[:4]), rng.choice(pool)])
+        reqs += after[:4]
+    reqs += rest[:4]
+    case["requests"] = reqs
+    n = len(vs)
+    case["cfgs"] = [{}, {"disk": True}, {"disk": True, "trace": True},
+                    {"disk": True, "priority": _some(rng, n, 0.3)},
+                    {"disk": True, "drop": _some(rng, n0, 0.3) + ([r] if rng.random() < 0.5 else [])},
+                    {"trace": True}]
+    case["stream"] = "delete"
+    return case
+
+
+def chain_case(rng, case):
+    """A quasi-circular pair A@P = c + B@last_month(P), B@P = d + A@P (self-dependence at last_month,
+    cut by the spiral heuristic) below a top variable T@P = B@P (or A@P) + raise(k): with switch k on,
+    the request for T walks the spiral and THEN raises (k % 3 == 2: a BaseException); the caller goes
+    on asking for A, B, T at the same period P, under configurations that do or do not store them.
+    T reads one of A, B, once.  The cut marks every frame from the first frame of the cut variable
+    down, so nothing of A or B is ever kept after a request, and what is kept of T was computed from
+    a chain that starts the same way in every request: all configurations must answer alike; P is
+    the only period asked of A, B, T."""
+    sys, pop = case["sys"], case["pop"]
+    vs = sys["vars"]
+    n0 = len(vs)
+    a, b, t = n0, n0 + 1, n0 + 2
+    k = rng.choice([1, 2])
+    base_month = [i for i in range(n0) if vs[i]["unit"] == "month" and vs[i]["ent"] == "person"]
+    fa = ["bin", "add", ["const", rng.randint(1, 9)], ["dep", b, "last_month", "plain"]]
+    if base_month and rng.random() < 0.5:
+        fa = ["bin", "add", fa, ["dep", rng.choice(base_month), "same", "plain"]]
+    fb = ["bin", "add", ["const", rng.randint(1, 9)], ["dep", a, "same", "plain"]]
+    ft = ["bin", "add", ["dep", rng.choice([a, b]), "same", "plain"], ["raise", k]]
+    if rng.random() < 0.3:
+        ft = ["bin", "add", ["bin", "mul", ["const", 2], ft[2]], ["bin", "add", ["const", rng.randint(1, 5)], ["raise", k]]]
+    for f in (fa, fb, ft):
+        vs.append({"ent": "person", "type": "int", "unit": "month", "end": None, "default": rng.choice([0, 0, 2]),
+                   "neutral": False, "formulas": [[[1, 1, 1], f]]})
+    sys["switches"] = sorted(set(sys.get("switches", [])) | {k})
+    sys["max_loops"] = rng.choice([1, 1, 2, 3])
+    P = rules.gen_period(rng, "month")
+    sets = [q for q in case["requests"] if q[0] == "set"]
+    rest = [q for q in case["requests"] if q[0] in ("calc", "add", "div", "get") and q[1] < n0]
+    reqs = list(sets)
+    if rng.random() < 0.3:
+        reqs += rest[:2]
+    reqs.append(["calc", t, P])                                    # walks the spiral, then raises
+    tail = [["calc", rng.choice([a, b, t, a, b]), P] for _ in range(rng.randint(2, 5))] + rest[2:5]
+    rng.shuffle(tail)
+    if rng.random() < 0.6:
+        tail.insert(rng.randrange(len(tail) + 1), ["switch", k, False])
+        tail.append(["calc", t, P])
+    reqs += tail
+    case["requests"] = reqs
+    n = len(vs)
+    case["cfgs"] = [{}, {"trace": True}, {"disk": True}, {"drop": [a]}, {"drop": [rng.choice([b, t])]},
+                    {"blacklist": [a, b], "opt_out": True},
+                    {"trace": True, "disk": True, "drop": _some(rng, n, 0.3), "blacklist": [rng.choice([a, b, t])],
+                     "opt_out": True}]
+    case["chain"] = {"a": a, "b": b, "t": t, "P": P}
+    case["stream"] = "chain"
+    return case
+
+
 def generate(rng, tier):
     n = {"quick": 320, "escalated": 800, "thorough": 5000}[tier]
     return [gen_one(rng, k) for k in range(n)]
@@ -231,7 +354,7 @@ def _ev_hook(sys, switches, e, ent, sim, period, parameters):
         out = _plain_ev(sys, switches, e, ent, sim, period, parameters)
         entry["ret"] = out
         return out
-    except Exception as ex:  # noqa: BLE001
+    except BaseException as ex:  # noqa: BLE001 - rules.HarnessAbort is not an Exception
         entry["err"] = errkind(ex)
         raise
     finally:
@@ -447,12 +570,44 @@ def model_ranked(sys):
     return rules.is_ranked(sys) and not any(v["unit"] == "eternity" and v["formulas"] for v in sys["vars"])
 
 
+def chain_ok(case):
+    """the scope described in chain_case, recognised from the case itself"""
+    ch = case.get("chain")
+    if not ch:
+        return False
+    sys = case["sys"]
+    a, b, t, P = ch["a"], ch["b"], ch["t"], ch["P"]
+    vs = sys["vars"]
+    if [a, b, t] != [len(vs) - 3, len(vs) - 2, len(vs) - 1] or not model_ranked({"vars": vs[:a]}):
+        return False
+    for i, v in enumerate(vs[:a]):
+        for _, e in v["formulas"]:
+            if any(dd[1] in (a, b, t) for dd in rules.deps_of(e)):
+                return False
+    da = [dd[1:] for dd in rules.deps_of(vs[a]["formulas"][0][1])]
+    db = [dd[1:] for dd in rules.deps_of(vs[b]["formulas"][0][1])]
+    dt = [dd[1:] for dd in rules.deps_of(vs[t]["formulas"][0][1])]
+    if [x for x in da if x[0] >= a] != [[b, "last_month", "plain"]] or db != [[a, "same", "plain"]]:
+        return False
+    # T reads ONE of them, once: reading both, the second read is a cache hit (computed below the
+    # first) in the plain run and a recomputation from the top where it is not stored - the spiral
+    # heuristic then cuts elsewhere, by design
+    if len(dt) != 1 or dt[0][0] not in (a, b) or dt[0][1:] != ["same", "plain"]:
+        return False
+    for r in case["requests"]:
+        if r[0] == "switch" and r[2]:
+            return False                      # switches only go off: nothing kept becomes stale
+        if r[0] != "switch" and r[1] >= a and (r[0] != "calc" or r[2] != P):
+            return False
+    return True
+
+
 def claimed_invariance(case):
-    if not model_ranked(case["sys"]):
+    if not model_ranked(case["sys"]) and not chain_ok(case):
         return False
     seen_calc = False
     for r in case["requests"]:
-        if r[0] in ("delete", "switch"):
+        if r[0] == "delete" or (r[0] == "switch" and not chain_ok(case)):
             return False
         if r[0] in ("calc", "add", "div"):
             seen_calc = True
@@ -599,6 +754,17 @@ def oracle(case, obs):
             if run["flat"] != ef:
                 bad = next((x for x, y in zip(run["flat"], ef) if x != y), None)
                 return f"flat-trace: under {cfg}: entry {bad} differs from the calculations performed (or missing entries)"
+    # configurations that store exactly what the plain one stores (tracer, disk, priority variables,
+    # threshold; no holder skips its store): every answer of every request kind, in every system
+    # and after any request sequence, is the plain run's
+    for run in runs[1:]:
+        if any(rules.nostore(run["cfg"], i) for i in range(nvars)):
+            continue
+        for k, r in enumerate(case["requests"]):
+            a, b = plain["reqs"][k][0], run["reqs"][k][0]
+            if not same_answer(a, b):
+                return (f"answers: request {k} {r} gives {b!r} under {run['cfg']} and {a!r} under the plain "
+                        f"configuration (same stores, memory or disk)")
     # same answers as the plain run
     if claimed_invariance(case):
         for run in runs[1:]:
